@@ -26,7 +26,7 @@ META = {
     "assumptions": ["np in optuna.pruners._percentile/_patient rebound to the object-array shim (validated against real NumPy in the "
                     "obligation shim-validation); math.isnan/float shimmed to accept symbolic finite reals",
                     "values compared over exact reals (percentile linear interpolation is the only rounding operation)"],
-    "outside": ["WilcoxonPruner (SciPy)", "SuccessiveHalving with bootstrap_count>0", "more than 3 other trials / 4 steps"],
+    "outside": ["the numeric value of SciPy's Wilcoxon p-value (arbitrary in the Wilcoxon obligation)", "SuccessiveHalving with bootstrap_count>0", "more than 3 other trials / 4 steps"],
 }
 
 
@@ -289,6 +289,37 @@ def bracket_body():
     return True
 
 
+def wilcoxon_gate_body():
+    """WilcoxonPruner never prunes before max(2, n_startup_steps) common steps with the best trial, whatever SciPy's p-value is, and never
+    prunes a trial whose average is better than the best trial's average"""
+    from optuna.pruners import _wilcoxon as pw, WilcoxonPruner
+    from harness.c13 import WilcoxonStub
+    from stubs.npshim import npshim
+    import warnings
+    warnings.simplefilter("ignore")
+    pw.np = npshim
+    pw.ss = WilcoxonStub()
+    maximize = bool(sx.choose(2, "maximize"))
+    n_startup = sx.choose([0, 1, 2, 3], "n_startup_steps")
+    study = optuna.create_study(direction="maximize" if maximize else "minimize", storage=InMemoryStorage())
+    nb = sx.choose([0, 2, 3], "best_steps")
+    best_iv = {s_: sx.sym_real(f"best_s{s_}") for s_ in range(nb)}
+    study.add_trial(create_trial(state=TrialState.COMPLETE, value=sx.sym_real("best_value"), intermediate_values=best_iv))
+    cur = current_trial(study, [0, 1, 2], "", kinds=("finite",), nonempty=False)
+    r = P(WilcoxonPruner(p_threshold=sx.sym_real("p_threshold", 0, 1), n_startup_steps=n_startup).prune(study, cur))
+    sx.reach("prune-called")
+    common = [s_ for s_ in cur.intermediate_values if s_ in best_iv]
+    conds = []
+    if len(common) < max(2, n_startup):
+        conds.append(sx.not_(r))
+    if best_iv and cur.intermediate_values:
+        sb = sum(best_iv.values()) / len(best_iv)
+        sc = sum(cur.intermediate_values.values()) / len(cur.intermediate_values)
+        strictly_better = (sc > sb) if maximize else (sc < sb)
+        conds.append(sx.implies(strictly_better, sx.not_(r)))          # the documented safety: average better than the best trial => keep
+    return sx.all_of(conds) if conds else True
+
+
 def nop_body():
     study = optuna.create_study(storage=InMemoryStorage())
     build_history(study, 1, [0], "")
@@ -400,6 +431,10 @@ def obligations(tier):
                    describe="same through HyperbandPruner and its bracket studies"),
         Obligation("hyperband-bracket", bracket_body, setup, CODE, bounds=dict(trials=6, names=3), shard_depth=4, budget_s=300,
                    classify=classify, require_reach=["compared"], describe="bracket id is a function of (study name, trial number) only"),
+        Obligation("wilcoxon-gates", wilcoxon_gate_body, setup, CODE, bounds=dict(n_startup_steps=[0, 1, 2, 3], best_steps=[0, 2, 3], cur_steps="subsets of {0,1,2}",
+                                                                                 p_value="arbitrary (uninterpreted)"),
+                   shard_depth=3, budget_s=600, classify=classify, require_reach=["prune-called"],
+                   describe="WilcoxonPruner: start-up gate and the average-is-best safety, for an arbitrary p-value"),
         Obligation("nop", nop_body, setup, CODE, budget_s=120, classify=classify, require_reach=["prune-called"], describe="NopPruner never prunes"),
         Obligation("shim-validation", None, None, [], custom=shim_validation, describe="NumPy shim overrides vs real NumPy on concrete inputs"),
     ]
